@@ -172,9 +172,24 @@ def read_move(fn):
         raise Untranslatable('move: expected (fn, result)')
     fn_var, res_var = params
     ex_var, instrs, placed, neg = None, [], False, None
+    derived = {res_var}  # names whose value is built from the digest name (the path inside the store)
+
+    def probes_store(call):
+        return bool(call.args) and any(isinstance(x, ast.Name) and x.id in derived for x in ast.walk(call.args[0]))
+
     for s in fn.body:
+        for t in (s.targets if isinstance(s, ast.Assign) else []):
+            for x in ast.walk(t):
+                if isinstance(x, ast.Name) and x.id in params:
+                    raise Untranslatable(f'move: parameter {x.id} is reassigned')
+        if isinstance(s, ast.Assign) and len(s.targets) == 1 and isinstance(s.targets[0], ast.Name) \
+                and any(isinstance(x, ast.Name) and x.id in derived for x in ast.walk(s.value)) \
+                and not any(isinstance(x, ast.Name) and x.id == fn_var for x in ast.walk(s.value)):
+            derived.add(s.targets[0].id)
         if isinstance(s, ast.Assign) and len(s.targets) == 1 and isinstance(s.targets[0], ast.Name) \
                 and isinstance(s.value, ast.Call) and qual(s.value) in EXISTS:
+            if not probes_store(s.value):
+                raise Untranslatable('move: the existence test is not about the path of the digest name in the store')
             ex_var = s.targets[0].id
             instrs.append('probe')
             continue
@@ -183,6 +198,8 @@ def read_move(fn):
             if isinstance(t, ast.UnaryOp) and isinstance(t.op, ast.Not):
                 t, swap = t.operand, True
             if isinstance(t, ast.Call) and qual(t) in EXISTS and ex_var is None:
+                if not probes_store(t):
+                    raise Untranslatable('move: the existence test is not about the path of the digest name in the store')
                 instrs.append('probe')
             elif not (isinstance(t, ast.Name) and t.id == ex_var):
                 raise Untranslatable('move: branch condition is not the result of os.path.exists')
